@@ -30,7 +30,7 @@ open MuduoVerif.Gen.Conn (StateE forceCloseAccepts shutdownAccepts forceCloseInL
 inductive Task
   /-- `bind(&TcpConnection::connectEstablished, conn)` -/
   | est (c : Nat)
-  /-- `bind(&TcpServer::removeConnectionInLoop, this, conn)` -/
+  /-- `bind(&TcpServer::removeConnectionIfAlive, alive, server, conn)` (formerly `removeConnectionInLoop, this, conn`) -/
   | rem (c : Nat)
   /-- `bind(&TcpConnection::connectDestroyed, conn)` -/
   | des (c : Nat)
@@ -171,16 +171,18 @@ def connectDestroyed (s : Srv) (l c : Nat) : Srv :=
 def handDestroy (s : Srv) (l c : Nat) (d : Dispatch) (t : Target) : Srv :=
   if d = .run ∧ l = target s c t then connectDestroyed s l c else s.enq (target s c t) (.des c)
 
-/-- `TcpServer::removeConnectionInLoop` on loop `l` -/
+/-- the functor the close callback hands to the base loop, run on loop `l`: `removeConnectionIfAlive` (the server is
+only touched if its life token has not expired) → `TcpServer::removeConnectionInLoop`; without the token the functor
+runs `removeConnectionInLoop` on whatever is left of the server -/
 def removeInLoop (s : Srv) (l c : Nat) : Srv :=
-  if !s.alive then s.emit c .uaf l
+  if !s.alive then (if removeGuarded && dtorExpiresToken then s else s.emit c .uaf l)
   else if l ≠ 0 then s.emit c .abort l
   else
     let k := (s.map.filter (·.1 == (s.conn c).name)).length
     handDestroy ({ s with map := mapErase s.map (s.conn c).name }.emit c (if k = 1 then .erase else .eraseMiss) l)
       l c destroyDispatch destroyTarget
 
-/-- `TcpServer::removeConnection`, called by the connection on its loop `l` -/
+/-- the close callback (`TcpServer::removeConnectionGuarded`, formerly `removeConnection`), called by the connection on its loop `l` -/
 def removeConnection (s : Srv) (l c : Nat) : Srv :=
   if removeDispatch = .run ∧ l = target s c removeTarget then removeInLoop s l c
   else s.enq (target s c removeTarget) (.rem c)
@@ -230,18 +232,22 @@ def runHead (s : Srv) (l : Nat) : Srv :=
   | t :: rest =>
     runTask { s with q := fun i => if i = l then rest else s.q i, done := fun i => if i = l then s.done i ++ [t] else s.done i } l t
 
-def releaseTask (l : Nat) (s : Srv) (t : Task) : Srv :=
-  match t.conn? with
-  | some c => reapOne s l c
-  | none => s
-
-/-- loop `l` is through with a batch: the functors it ran are destroyed, first to last -/
-def endBatch (s : Srv) (l : Nat) : Srv :=
-  (s.done l).foldl (releaseTask l) { s with done := fun i => if i = l then [] else s.done i }
-
 def iterate (f : Srv → Srv) : Nat → Srv → Srv
   | 0, s => s
   | k + 1, s => iterate f k (f s)
+
+/-- the first functor of loop `l`'s finished batch is destroyed: its reference goes away -/
+def releaseHead (s : Srv) (l : Nat) : Srv :=
+  match s.done l with
+  | [] => s
+  | t :: rest =>
+    match t.conn? with
+    | some c => reapOne { s with done := fun i => if i = l then rest else s.done i } l c
+    | none => { s with done := fun i => if i = l then rest else s.done i }
+
+/-- loop `l` is through with a batch: the functors it ran are destroyed one by one, first to last
+(`doPendingFunctors` returns, its local vector goes out of scope) -/
+def endBatch (s : Srv) (l : Nat) : Srv := iterate (fun s => releaseHead s l) (s.done l).length s
 
 /-- `TcpServer::newConnection` on the base loop (the acceptor's channel event) -/
 def accept (s : Srv) : Srv :=
